@@ -67,6 +67,19 @@ func (o *Out) Emit(op string, obs string, nontrivial bool) {
 func (o *Out) Count(k string) { o.dist[k]++ }
 
 func (o *Out) Fail(key string, detail string) {
+	// VERIF_FAIL_FILTER=<substring>: only oracle failures whose key contains the substring are reported (a property
+	// that borrows another property's engine for ONE aspect — C19 runs the module engines for their export/import op —
+	// leaves the other oracles to the check that owns them); everything else is counted.
+	if f := os.Getenv("VERIF_FAIL_FILTER"); f != "" && !strings.Contains(key, f) {
+		o.dist["filtered-oracle-failure."+key]++
+		return
+	}
+	// VERIF_FAIL_EXCLUDE=<substring>: the converse — the owning check leaves the borrowed aspect to the borrower
+	// (export/import failures are C19's, reported there under C19's known findings), counted here.
+	if f := os.Getenv("VERIF_FAIL_EXCLUDE"); f != "" && strings.Contains(key, f) {
+		o.dist["excluded-oracle-failure."+key]++
+		return
+	}
 	o.fails++
 	o.failKeys[key]++
 	if o.failKeys[key] > 40 {
